@@ -6,7 +6,10 @@
    (TestRegistry::runAllTests: every test takes the chain as the registry holds it when the test starts) during which
    test statements and plugin actions install / remove / enable / disable plugins, and by the command line runner
    (CommandLineTestRunner::runAllTestsMain: its own SetPointerPlugin on top of whatever the registry holds, the run,
-   removal by name).  No proofs in this file. *)
+   removal by name).  Plugin OBJECTS live on when they are removed from the chain and may be handed to installPlugin again:
+   the registry keeps them (r_out) and, next to the chain as a list, the chain as the code holds it -- objects with a next_
+   link that installPlugin overwrites and removal leaves stale, and firstPlugin_ (r_lnk); the chain a session observes after
+   :rm / :reset / :reinst / a run is read through those links.  No proofs in this file. *)
 From Coq Require Import NArith Arith Bool List.
 From CppUVerif Require Import gen.Gen_Common.
 Import ListNotations.
@@ -84,7 +87,9 @@ Inductive act :=
 | ARemove (name : N)                   (* TestRegistry::removePluginByName *)
 | AEnable (id : nat)
 | ADisable (id : nat)
-| AReset.                              (* TestRegistry::resetPlugins *)
+| AReset                               (* TestRegistry::resetPlugins *)
+| AReinstall (id : nat).               (* installPlugin on the plugin object `id` that already exists (one removed by name or dropped by
+                                          resetPlugins earlier): the object comes with whatever next_ link it was left with *)
 
 Inductive role :=
 | RRec                                 (* the harness's recording plugin: logs its pre and its post action *)
@@ -166,24 +171,131 @@ Definition without (n : N) (c : chain) : chain := filter (fun p => negb (named n
 Definition enabled_ids (c : chain) : list nat := map p_id (filter p_on c).
 Definition log_ids (c : chain) : list nat := map p_id (filter (fun p => p_on p && logs p) c).   (* what the recording plugins write *)
 
+Definition find_id (i : nat) (c : chain) : option plugin := find (fun p => Nat.eqb (p_id p) i) c.
+Definition take_id (i : nat) (c : chain) : chain := filter (fun p => negb (Nat.eqb (p_id p) i)) c.
+Definition is_runner (p : plugin) : bool := match p_role p with RRunner => true | _ => false end.
+
+(* ---------------------------------------------------------------- the chain as the code holds it: objects and links *)
+(* A plugin object has a name_ (fixed) and a next_ link; the registry has firstPlugin_.  None is NullTestPlugin::instance(),
+   the end of every chain.  TestPlugin(name) sets next_ to the end; TestPlugin::addPlugin (called by installPlugin) OVERWRITES
+   next_ with the old head; removal by name unlinks an object by redirecting firstPlugin_ or its predecessor's next_ and leaves
+   the removed object's own next_ as it was (stale); resetPlugins only redirects firstPlugin_. *)
+Definition ptr := option nat.
+Record obj := { o_id : nat; o_name : N; o_next : ptr }.
+Record links := { l_first : ptr; l_objs : list obj }.          (* the latest binding of an id comes first *)
+Definition lookup_obj (os : list obj) (i : nat) : option obj := find (fun o => Nat.eqb (o_id o) i) os.
+Definition nxt (os : list obj) (i : nat) : ptr := match lookup_obj os i with Some o => o_next o | None => None end.
+Definition oname (os : list obj) (i : nat) : N := match lookup_obj os i with Some o => o_name o | None => 0%N end.
+Definition set_next (os : list obj) (i : nat) (v : ptr) : list obj := {| o_id := i; o_name := oname os i; o_next := v |} :: os.
+Definition init_links : links := {| l_first := None; l_objs := [] |}.
+
+(* TestPlugin::TestPlugin(name) *)
+Definition l_new (i : nat) (n : N) (L : links) : links :=
+  {| l_first := l_first L; l_objs := {| o_id := i; o_name := n; o_next := None |} :: l_objs L |}.
+(* TestRegistry::installPlugin: firstPlugin_ = plugin->addPlugin(firstPlugin_)  [addPlugin: next_ = plugin; return this] *)
+Definition l_install (i : nat) (L : links) : links :=
+  {| l_first := Some i; l_objs := set_next (l_objs L) i (l_first L) |}.
+(* TestRegistry::resetPlugins *)
+Definition l_reset (L : links) : links := {| l_first := None; l_objs := l_objs L |}.
+(* TestRegistry::removePluginByName, first loop: while (firstPlugin_ != end && firstPlugin_->getName() == name) firstPlugin_ = firstPlugin_->getNext();
+   the fuel stands for termination: on a circular chain the loop need not end *)
+Fixpoint l_drop_heads (fuel : nat) (os : list obj) (n : N) (f : ptr) : option ptr :=
+  match fuel with
+  | O => None
+  | S k => match f with
+           | None => Some None
+           | Some i => if N.eqb (oname os i) n then l_drop_heads k os n (nxt os i) else Some f
+           end
+  end.
+(* second loop, standing on plugin p:  for (..; plugin != end; plugin = plugin->getNext())
+                                         while (plugin->getNext() != end && plugin->removePluginByName(name) != NULLPTR) {}
+   TestPlugin::removePluginByName: if next_'s name matches, next_ = next_->next_ (the removed object keeps its own next_) *)
+Fixpoint l_unlink (fuel : nat) (n : N) (os : list obj) (p : nat) : option (list obj) :=
+  match fuel with
+  | O => None
+  | S k => match nxt os p with
+           | None => Some os
+           | Some q => if N.eqb (oname os q) n then l_unlink k n (set_next os p (nxt os q)) p else l_unlink k n os q
+           end
+  end.
+Definition l_remove (fuel : nat) (n : N) (L : links) : option links :=
+  match l_drop_heads fuel (l_objs L) n (l_first L) with
+  | None => None
+  | Some None => Some {| l_first := None; l_objs := l_objs L |}
+  | Some (Some p) => match l_unlink fuel n (l_objs L) p with
+                     | Some os => Some {| l_first := Some p; l_objs := os |}
+                     | None => None
+                     end
+  end.
+(* reading the chain from firstPlugin_ (TestRegistry::countPlugins, getFirstPlugin / getNext) *)
+Fixpoint l_read (fuel : nat) (os : list obj) (f : ptr) : option (list nat) :=
+  match fuel with
+  | O => None
+  | S k => match f with
+           | None => Some []
+           | Some i => match l_read k os (nxt os i) with Some r => Some (i :: r) | None => None end
+           end
+  end.
+(* TestPlugin::runAllPreTestAction / runAllPostTestAction over the links (recording plugins; `on` = the enabled_ flags) *)
+Fixpoint l_pre (fuel : nat) (os : list obj) (on : nat -> bool) (f : ptr) : option (list nat) :=
+  match fuel with
+  | O => None
+  | S k => match f with
+           | None => Some []
+           | Some i => match l_pre k os on (nxt os i) with Some r => Some ((if on i then [i] else []) ++ r) | None => None end
+           end
+  end.
+Fixpoint l_post (fuel : nat) (os : list obj) (on : nat -> bool) (f : ptr) : option (list nat) :=
+  match fuel with
+  | O => None
+  | S k => match f with
+           | None => Some []
+           | Some i => match l_post k os on (nxt os i) with Some r => Some (r ++ (if on i then [i] else [])) | None => None end
+           end
+  end.
+(* the variant a red team proposed ("do not link a plugin in twice"): an object that is the head or still carries a link is
+   taken to be installed already and left alone -- refuted in C17_Links.v: a removed object keeps its stale link *)
+Definition l_install_guarded (i : nat) (L : links) : links :=
+  if (match l_first L with Some j => Nat.eqb i j | None => false end) || (match nxt (l_objs L) i with Some _ => true | None => false end)
+  then L else l_install i L.
+
 (* ---------------------------------------------------------------- the registry *)
-(* chain, number of plugin objects created so far, and the (id, name) of every object ever created (the harness's
-   book-keeping of which plugins an action names, used only to tell which log entries the property speaks about) *)
+(* chain, number of plugin objects created so far, the (id, name) of every object ever created (the harness's book-keeping of
+   which plugins an action names, used only to tell which log entries the property speaks about), the plugin objects that
+   exist but are not in the chain (removed by name or dropped by resetPlugins; they keep their enabled flag and can be
+   installed again), and the objects' links as the code holds them (never read by the oracle) *)
 Definition names := list (nat * N).
-Record reg := { r_chain : chain; r_next : nat; r_names : names }.
+Record reg := { r_chain : chain; r_next : nat; r_names : names; r_out : list plugin; r_lnk : links }.
 
 (* `rm` is the removal by name: the code's loops (remove_by_name) in the model, the textbook filter (without) in the oracle *)
 Definition reg_install (r : reg) (p : plugin) : reg :=
-  {| r_chain := p :: r_chain r; r_next := S (r_next r); r_names := (p_id p, p_name p) :: r_names r |}.
-Definition reg_chain (r : reg) (c : chain) : reg := {| r_chain := c; r_next := r_next r; r_names := r_names r |}.
+  {| r_chain := p :: r_chain r; r_next := S (r_next r); r_names := (p_id p, p_name p) :: r_names r; r_out := r_out r;
+     r_lnk := l_install (p_id p) (l_new (p_id p) (p_name p) (r_lnk r)) |}.
+Definition reg_set (r : reg) (c : chain) (o : list plugin) (L : links) : reg :=
+  {| r_chain := c; r_next := r_next r; r_names := r_names r; r_out := o; r_lnk := L |}.
+Definition remove_fuel (r : reg) : nat := S (r_next r).          (* more than the number of plugin objects *)
 Definition reg_act (rm : N -> chain -> chain) (r : reg) (a : act) : reg :=
   match a with
   | AInstall n k => reg_install r (mkp (r_next r) n k RRec)
-  | ARemove n => reg_chain r (rm n (r_chain r))
-  | AEnable i => reg_chain r (set_on i true (r_chain r))
-  | ADisable i => reg_chain r (set_on i false (r_chain r))
-  | AReset => reg_chain r []
+  | ARemove n => reg_set r (rm n (r_chain r)) (filter (named n) (r_chain r) ++ r_out r)
+                         (match l_remove (remove_fuel r) n (r_lnk r) with Some L => L | None => r_lnk r end)
+  | AEnable i => reg_set r (set_on i true (r_chain r)) (set_on i true (r_out r)) (r_lnk r)
+  | ADisable i => reg_set r (set_on i false (r_chain r)) (set_on i false (r_out r)) (r_lnk r)
+  | AReset => reg_set r [] (r_chain r ++ r_out r) (l_reset (r_lnk r))
+  | AReinstall i =>
+      (* the code links the object in front whatever it is: next_ is overwritten, firstPlugin_ points at it.  Chain level: an
+         object that is outside the chain becomes the new head (with the flags it carries).  An object that IS in the chain
+         gets its own successors cut off or is made to point at itself or at a predecessor -- the links become circular; the
+         chain level has nothing to say about that (`valid` excludes it) *)
+      let L := if i <? r_next r then l_install i (r_lnk r) else r_lnk r in
+      match find_id i (r_out r) with
+      | Some p => reg_set r (p :: r_chain r) (take_id i (r_out r)) L
+      | None => reg_set r (r_chain r) (r_out r) L
+      end
   end.
+(* the chain as read through the links, as countPlugins / getNext walk it; [] stands for a walk that does not end *)
+Definition read_chain (r : reg) : list nat :=
+  match l_read (remove_fuel r) (l_objs (r_lnk r)) (l_first (r_lnk r)) with Some ids => ids | None => [] end.
 
 (* the plugin objects an action names: their log entries in the test in which the action happens are outside what the
    property fixes (was the plugin "installed" / "enabled" for that test or not?) and are left out of the observation *)
@@ -192,7 +304,7 @@ Definition touched_by (nm : names) (nx : nat) (a : act) : list nat :=
   match a with
   | AInstall _ _ => [nx]
   | ARemove n => ids_named nm n
-  | AEnable i | ADisable i => [i]
+  | AEnable i | ADisable i | AReinstall i => [i]
   | AReset => map fst nm
   end.
 Definition unnamed (T : list nat) (i : nat) : bool := negb (existsb (Nat.eqb i) T).
@@ -228,7 +340,6 @@ Fixpoint xexec (st : state) (ss : list xstmt) : state * bool :=
    recursion goes down the chain, the post recursion comes back up): a plugin takes its turn if it is still installed
    and enabled when the turn comes; the pointer plugin's turn in the post walk restores; an acting plugin's turn
    performs its actions *)
-Definition find_id (i : nat) (c : chain) : option plugin := find (fun p => Nat.eqb (p_id p) i) c.
 Definition sp_restore (st : state) : state := set_mt st (restore (s_tbl st) (s_mem st)) [].
 Definition turn (post : bool) (x : plugin) (st : state) : state :=
   do_acts (if post && is_sp x then sp_restore st else st) (sel_acts post x).
@@ -285,7 +396,6 @@ Fixpoint run_tests (st : state) (ts : list xtest) : state * list item :=
 (* the name CommandLineTestRunner gives its pointer plugin (DEF_PLUGIN_SET_POINTER; the harness maps this number to it) *)
 Definition runner_name : N := 160%N.
 Definition runner_plugin (i : nat) : plugin := mkp i runner_name KSetPtr RRunner.
-Definition is_runner (p : plugin) : bool := match p_role p with RRunner => true | _ => false end.
 
 Inductive op :=
 | OInstall (name : N) (k : kind)       (* a new plugin object (id = number of plugins created so far), installPlugin *)
@@ -294,6 +404,7 @@ Inductive op :=
 | ODisable (id : nat)
 | ORemove (name : N)                   (* TestRegistry::removePluginByName *)
 | OReset                               (* TestRegistry::resetPlugins *)
+| OReinstall (id : nat)                (* installPlugin on the existing plugin object id, then the chain is read *)
 | OTest (t : xtest)                    (* one test run through the registry *)
 | ORun (ts : list xtest)               (* one TestRegistry::runAllTests over several tests, then the chain is read *)
 | ORunner (rep : nat) (ts : list xtest). (* CommandLineTestRunner::runAllTestsMain, the tests repeated rep times (-r), then the chain is read *)
@@ -308,13 +419,14 @@ Definition step (st : state) (o : op) : state * list item :=
   | OActor n post acts => (install st (mkp (s_next st) n KPlain (RActor post acts)), [])
   | OEnable id => (do_act st (AEnable id), [])
   | ODisable id => (do_act st (ADisable id), [])
-  | ORemove n => let st1 := do_act st (ARemove n) in (st1, [IChain (map p_id (s_chain st1))])
-  | OReset => (do_act st AReset, [IChain []])
+  | ORemove n => let st1 := do_act st (ARemove n) in (st1, [IChain (read_chain (s_reg st1))])
+  | OReset => let st1 := do_act st AReset in (st1, [IChain (read_chain (s_reg st1))])
+  | OReinstall id => let st1 := do_act st (AReinstall id) in (st1, [IChain (read_chain (s_reg st1))])
   | OTest t => match run_xtest st t with (st1, it) => (st1, [it]) end
-  | ORun ts => match run_tests st ts with (st1, its) => (st1, its ++ [IChain (map p_id (s_chain st1))]) end
+  | ORun ts => match run_tests st ts with (st1, its) => (st1, its ++ [IChain (read_chain (s_reg st1))]) end
   | ORunner rep ts =>
       match run_tests (install st (runner_plugin (s_next st))) (reps rep ts) with
-      | (st1, its) => let st2 := do_act st1 (ARemove runner_name) in (st2, its ++ [IChain (map p_id (s_chain st2))])
+      | (st1, its) => let st2 := do_act st1 (ARemove runner_name) in (st2, its ++ [IChain (read_chain (s_reg st2))])
       end
   end.
 
@@ -328,7 +440,7 @@ Fixpoint exec_ops (st : state) (ops : list op) : state :=
   | [] => st
   | o :: r => exec_ops (fst (step st o)) r
   end.
-Definition init_reg : reg := {| r_chain := []; r_next := 0; r_names := [] |}.
+Definition init_reg : reg := {| r_chain := []; r_next := 0; r_names := []; r_out := []; r_lnk := init_links |}.
 Definition init_state : state := {| s_mem := init_mem; s_tbl := []; s_reg := init_reg; s_T := [] |}.
 Definition run (s : list op) : list item := run_from init_state s.
 
@@ -469,6 +581,12 @@ Fixpoint spec_from (r : reg) (pool : mem) (ops : list op) (obs : list item) : bo
       | IChain [] :: obs' => spec_from (reg_act without r AReset) pool rest obs'
       | _ => false
       end
+  | OReinstall id :: rest =>
+      (* the object installed last is the head, in front of the chain as it was *)
+      match obs with
+      | IChain ids :: obs' => nat_list_eqb ids (id :: map p_id (r_chain r)) && spec_from (reg_act without r (AReinstall id)) pool rest obs'
+      | _ => false
+      end
   | OTest t :: rest =>
       match spec_tests r pool [t] obs with
       | Some (r', pool', obs') => spec_from r' pool' rest obs'
@@ -492,7 +610,8 @@ Fixpoint spec_from (r : reg) (pool : mem) (ops : list op) (obs : list item) : bo
 Definition spec (s : list op) (o : list item) : bool := spec_from init_reg init_mem s o.
 
 (* ---------------------------------------------------------------- valid scenarios *)
-(* locations are pool indices.  A test that uses UT_PTR_SET runs with an enabled SetPointerPlugin in the chain that no
+(* locations are pool indices.  installPlugin is handed only objects that are outside the chain (reinst_ok, acts_ok above).
+   A test that uses UT_PTR_SET runs with an enabled SetPointerPlugin in the chain that no
    action of the test names, and no SetPointerPlugin is constructed while it runs (otherwise nothing promises a restore).
    An acting plugin is named only by itself and only in the last of its actions (so that it is beyond doubt which
    actions a test performs). *)
@@ -509,7 +628,7 @@ Definition keeps (a : act) (x : plugin) : bool :=          (* the action does no
   match a with
   | AInstall _ _ => true
   | ARemove n => negb (named n x)
-  | AEnable i | ADisable i => negb (Nat.eqb i (p_id x))
+  | AEnable i | ADisable i | AReinstall i => negb (Nat.eqb i (p_id x))
   | AReset => false
   end.
 Fixpoint xacts (ss : list xstmt) : list act :=
@@ -532,10 +651,22 @@ Definition xtest_ok (c : chain) (t : xtest) : bool :=
   forallb (fun x => negb (is_actor x) || left_alone c t x) c &&
   (sp_stable c t || negb (existsb is_set (all_stmts (strip t)))).
 
+(* re-installing: only a plugin object that exists, is outside the chain at that moment (linking in an object that is in the
+   chain makes the chain circular: pre / post actions and removal then never end) and is not the command line runner's own
+   (that one is destroyed when the runner returns) *)
+Definition reinst_ok (r : reg) (i : nat) : bool :=
+  match find_id i (r_out r) with Some p => negb (is_runner p) | None => false end.
+Definition act_ok (r : reg) (a : act) : bool := match a with AReinstall i => reinst_ok r i | _ => true end.
+Fixpoint acts_ok (r : reg) (l : list act) : bool :=
+  match l with
+  | [] => true
+  | a :: l' => act_ok r a && acts_ok (reg_act without r a) l'
+  end.
 Fixpoint valid_tests (r : reg) (ts : list xtest) : option reg :=
   match ts with
   | [] => Some r
-  | t :: ts' => if xtest_ok (r_chain r) t then valid_tests (fst (tb_acts (r, []) (test_acts (r_chain r) t))) ts' else None
+  | t :: ts' => if xtest_ok (r_chain r) t && acts_ok r (test_acts (r_chain r) t)
+                then valid_tests (fst (tb_acts (r, []) (test_acts (r_chain r) t))) ts' else None
   end.
 (* after the runner a plugin of the user that merely shares the runner's plugin name may or may not be left installed
    (the property does not say): such a session goes on with resetPlugins or ends *)
@@ -551,6 +682,7 @@ Fixpoint valid_from (r : reg) (ops : list op) : bool :=
   | ODisable id :: rest => valid_from (reg_act without r (ADisable id)) rest
   | ORemove n :: rest => valid_from (reg_act without r (ARemove n)) rest
   | OReset :: rest => valid_from (reg_act without r AReset) rest
+  | OReinstall id :: rest => reinst_ok r id && valid_from (reg_act without r (AReinstall id)) rest
   | OTest t :: rest => match valid_tests r [t] with Some r' => valid_from r' rest | None => false end
   | ORun ts :: rest => match valid_tests r ts with Some r' => valid_from r' rest | None => false end
   | ORunner rep ts :: rest =>
